@@ -1,10 +1,18 @@
 use caoverif::runner::{run_engine, Opts};
 
 fn main() {
+    // the reference interpreter recurses; give the worker a roomy stack (sanitizer frames are large)
+    let mb: usize = std::env::var("CAOVERIF_STACK_MB").ok().and_then(|s| s.parse().ok()).unwrap_or(256);
+    let h = std::thread::Builder::new().stack_size(mb << 20).spawn(real_main).expect("spawn worker thread");
+    let code = h.join().unwrap_or(70);
+    std::process::exit(code);
+}
+
+fn real_main() -> i32 {
     let args: Vec<String> = std::env::args().collect();
     if args.len() < 2 {
         eprintln!("usage: worker <engine> [options]");
-        std::process::exit(64);
+        return 64;
     }
     let opts = Opts::from_args(&args[2..]);
     let code = match args[1].as_str() {
@@ -24,10 +32,12 @@ fn main() {
             };
             run_engine(&mut e, &opts)
         }
+        "resolve" => run_engine(&mut caoverif::e_resolve::ResolveEngine {}, &opts),
+        "total" => run_engine(&mut caoverif::e_total::TotalEngine {}, &opts),
         other => {
             eprintln!("unknown engine {other}");
             64
         }
     };
-    std::process::exit(code);
+    code
 }
